@@ -10,9 +10,17 @@ JSON values (ordered key/value lists with duplicates, see Model/Json.lean); `pri
 `linked_hash_set_nodup`), not an assumption about the library's logic.  For a request the
 hypothesis `Request.WF` says that `created_at` denotes an instant chrono can represent (calendar and
 clock fields in range) – again an invariant of the Rust type (`deRequest_wf`).  `IpAddr` and
-`DateTime<Utc>` are concrete values with models of their `Display` / `Serialize` output and of the
-readers on canonical texts (Model/JsonAtoms.lean; `ip_print_parse`, `datetime_print_parse`); the real
-parsers' behaviour on non-canonical spellings is an oracle `P : Codec` of which nothing is assumed.
+`DateTime<Utc>` are concrete values with hand-written models of their `Display` / `Serialize` output and
+of readers that accept exactly the canonical texts (Model/JsonAtoms.lean; `ip_print_parse`,
+`datetime_print_parse` are laws of these models — that std / chrono print and read like them is held by
+the differential check only); the real parsers' behaviour on non-canonical spellings is an oracle
+`P : Codec` of which nothing is assumed.
+
+Levels.  Proved here: the serde-model VALUE is restored exactly, through the JSON value and through the
+JSON text.  The `*_behaviour` theorems below are the congruence corollaries for an arbitrary function of
+the serde-model type.  Behaviour under the MODELLED observers (C05) and the MODELLED router (C01) is in
+Props/C06obs.lean; behaviour of the real code on the real restored action is checked by the
+implementation-side oracle of harness c06, not proved.
 -/
 import RioModel.Proofs.JsonAction
 import RioModel.Proofs.JsonSchema
@@ -29,10 +37,13 @@ open Rio.Json
 theorem action_roundtrip (a : Action) (h : a.WF) : deAction (serAction a) = some a :=
   Rio.Json.action_roundtrip a h
 
-/-- Behavioural form: the restored action exists, and *every* observer – status code for a
-response code, filtered headers, body-filter output, logging decision, applied rule ids, for any
-arguments – returns the same on it as on the original; re-serialising it gives the same JSON
-text. -/
+/-- Congruence corollary of `action_roundtrip` (no further content): the restored action exists and any
+Lean function `obs` of the SERDE-MODEL action takes the same value on it as on the original;
+re-serialising it gives the same JSON text.  `obs` ranges over functions of `Rio.Json.Action`; the
+modelled observers of the library (status code for a response code, header / body filter selection,
+logging decision, applied rule ids) live on the action model of C05 — they are brought onto this type,
+and the statement "the restored action behaves like the original" is made for THEM, in
+Props/C06obs.lean (`action_observers_roundtrip`, `model_action_observers`, `observed_action_handover`). -/
 theorem action_behaviour {β : Type} (obs : Action → β) (a : Action) (h : a.WF) :
     ∃ a', deAction (serAction a) = some a' ∧ obs a' = obs a ∧
       print (serAction a') = print (serAction a) :=
@@ -156,9 +167,11 @@ theorem request_roundtrip (P : Codec) (q : Request) (h : q.WF) :
     deRequest P (serRequest q) = some q :=
   Rio.Json.request_roundtrip P q h
 
-/-- … so it matches the same rules on any router (`obs` is an arbitrary function of the
-request: `Router::match_request`, `rebuild_request`, the action computed from it …), and
-re-serialises to the same text. -/
+/-- Congruence corollary of `request_roundtrip` (no further content): any Lean function `obs` of the
+serde-model request takes the same value on the restored request, which re-serialises to the same text.
+That a restored request MATCHES THE SAME RULES is stated for the router model of C01 in Props/C06obs.lean
+(`request_match_roundtrip`, through the conversion `reqOfJson` of the nine JSON fields to the seven things
+matching reads). -/
 theorem request_behaviour {β : Type} (P : Codec) (obs : Request → β) (q : Request) (h : q.WF) :
     ∃ q', deRequest P (serRequest q) = some q' ∧ obs q' = obs q ∧
       print (serRequest q') = print (serRequest q) :=
